@@ -42,4 +42,14 @@ theorem close_signals_done :
     events_ServerConnClose.head? = some "call:c.closeOnce.Do" ∧
     events_ClientConnClose.head? = some "call:c.closeOnce.Do" := by decide
 
+/-- **Done() is signalled on every path through Close**: whatever closing the GBN
+    connection and the two streams returns, nothing leaves the function before
+    `close(quit)` — errors are recorded, not returned early (otherwise the next
+    Accept / Dial would wait for ever) -/
+theorem close_always_signals_done :
+    skel_ClientConnClose.contains "call:close" = true ∧
+    (skel_ClientConnClose.take (skel_ClientConnClose.idxOf "call:close")).contains "return" = false ∧
+    skel_ServerConnClose.contains "call:close" = true ∧
+    (skel_ServerConnClose.take (skel_ServerConnClose.idxOf "call:close")).contains "return" = false := by decide
+
 end Lnc.Inst.C11
